@@ -141,6 +141,34 @@ def standin_unitary_circuits(tier, seed):
         except Exception as ex:
             fails.append(dict(args=args, failed="to_qasm-raised", clause=f"to_qasm raised {ex!r} for a circuit of unitary library gates"))
             continue
+        # the other entry points write the same program: the file writer, the frozen circuit, the protocol function
+        if _ % 4 == 0:
+            import inspect
+            import os
+            import tempfile
+
+            others = {}
+            try:
+                fd, path = tempfile.mkstemp(suffix=".qasm")
+                os.close(fd)
+                try:
+                    kw = dict(version=version) if "version" in inspect.signature(c.save_qasm).parameters else {}
+                    if kw or version == "2.0":
+                        for label, cc in (("Circuit.save_qasm", c), ("FrozenCircuit.save_qasm", c.freeze())):
+                            cc.save_qasm(path, qubit_order=order, precision=precision, **kw)
+                            with open(path) as fh:
+                                others[label] = fh.read()
+                finally:
+                    os.unlink(path)
+                others["FrozenCircuit.to_qasm"] = c.freeze().to_qasm(qubit_order=order, version=version, precision=precision)
+                others["cirq.qasm(circuit, args)"] = cirq.qasm(c, args=cirq.QasmArgs(precision=precision, version=version), qubits=None) if tuple(order) == tuple(sorted(c.all_qubits())) else text
+            except Exception as ex:
+                fails.append(dict(args=args, failed="to_qasm-raised", clause=f"another OpenQASM entry point raised {ex!r} where to_qasm did not"))
+                others = {}
+            for label, t_ in others.items():
+                if t_ != text:
+                    fails.append(dict(args=dict(args, qasm=text, other=t_), failed="entry-points-differ", clause=f"{label} writes a different program than to_qasm for the same circuit, qubit order, version and precision"))
+                    break
         try:
             prog = qr.parse(text)
             U = qr.unitary(prog)
